@@ -1,0 +1,14 @@
+//go:build verif
+
+package aggchainproofclient
+
+import (
+	aggkitProverV1Grpc "buf.build/gen/go/agglayer/provers/grpc/go/aggkit/prover/v1/proverv1grpc"
+	aggkitgrpc "github.com/agglayer/aggkit/grpc"
+)
+
+// NewVerifAggchainProofClient builds the real client around a caller-supplied service client.
+func NewVerifAggchainProofClient(cfg *aggkitgrpc.ClientConfig,
+	client aggkitProverV1Grpc.AggchainProofServiceClient) *AggchainProofClient {
+	return &AggchainProofClient{client: client, grpcClientCfg: cfg}
+}
